@@ -163,9 +163,9 @@ def run_pivot(case, ctx):
     sess = codec._Session()
     cols = {c: codec.dec(v, sess) for c, v in case['cols'].items()}
     n = len(cols['z'])
+    d = dictable(cols) if n else dictable([], list(cols))
     if n == 0:
-        raise HarnessError('pivot of empty table not generated')
-    d = dictable(cols)
+        ctx.cls('pivot:empty_table')
     rows = [dict(r) for r in d]
     x = case['x']
     agg = case['agg']
@@ -229,7 +229,7 @@ def run_case(case, ctx):
 
 def gen_case(rng):
     how = rng.choice(['listby', 'listby', 'groupby', 'pivot', 'pivot'])
-    n = rng.choice([0, 1, 2, 3, 4, 5, 6, 8, 10]) if how != 'pivot' else rng.choice([1, 2, 3, 4, 5, 6, 8, 10])
+    n = rng.choice([0, 1, 2, 3, 4, 5, 6, 8, 10]) if how != 'pivot' else rng.choice([0, 1, 2, 3, 4, 5, 6, 8, 10, 1, 2, 3, 4, 5, 6, 8, 10])
     if how != 'pivot' and rng.random() < 0.02:
         n = rng.choice([256, 300, 520])       # long tables: any size-dependent path of the grouping code
     if how == 'pivot':
